@@ -16,6 +16,12 @@ CHECKS = {
     'C20': dict(engine='tlc-eaomodel', technique=P_TECH, cat='model_checking', ref='DESIGN.md 4 (C20)',
                 text='Order-book semantics (Commit action with fraction lattice {0,1/2,1}, delivery and per-step discounted payment over covered steps, inert out-of-horizon orders) enumerated by TLC; every behaviour replayed into the real problem, fraction near-misses rejected, optimum equal (full execution decided exactly), optimised runs trace-validated incl. DCF totals.',
                 note=P_NOTE),
+    'C08': dict(engine='tlc-eaomodel', technique=P_TECH + '; with/without pairs for elements outside the horizon', cat='model_checking', ref='DESIGN.md 4 (C08)',
+                text='Windows and take periods are arbitrary step/tick intervals in the TLA+ model (guards Active/TakeCovers, invariants WindowInv/OrderInertInv checked by TLC in every state); every asset kind at every placement relative to the horizon is enumerated, replayed (incl. outside_window near-misses and prorated takes) and trace-validated; for elements wholly outside the horizon the behaviours of the others (TLC output) and the real optimum must equal those of the configuration without the element.',
+                note=P_NOTE + ' Plant/CHP placement pairs are compared at code level only.'),
+    'C14': dict(engine='tlc-eaomodel', technique=P_TECH + '; TLC refinement invariant SplitRefinesUnsplit', cat='model_checking', ref='DESIGN.md 4 (C14)',
+                text='The split model (cfg.split: storages reset per interval, take periods prorated per interval) is enumerated by TLC; the invariant SplitRefinesUnsplit replays every complete split behaviour under the unsplit configuration (same value, no guard violated) for families coupled only through start=end storages. Behaviours are replayed into the block-diagonal problem of setup_split_optim_problem, the split run is trace-validated on the ORIGINAL grid, value = sum of interval optima, equality/inequality against the unsplit optimum per coupling class, several main time units.',
+                note=P_NOTE),
 }
 
 ENGINES = [
